@@ -104,7 +104,7 @@ func worker(prop, tier string, i, n int, out string) {
 	c := mc.Registry[prop]
 	if c == nil {
 		fmt.Fprintln(os.Stderr, "unknown property", prop)
-		os.Exit(2)
+		os.Exit(42)
 	}
 	rep := mc.NewReport(prop, tier)
 	rep.Deadline = deadlineFor(tier)
@@ -208,11 +208,12 @@ func coordinate(prop, tier string) int {
 					if ee, ok := err.(*exec.ExitError); ok {
 						code = ee.ExitCode()
 					}
-					if code == 2 || code == 3 {
+					if code == 42 || code == 43 {
 						machErr = true
 						total.MachErr = append(total.MachErr, fmt.Sprintf("worker exited %d in job %s", code, job))
 					} else {
-						// a crash of the process (fatal error: stack overflow, out of memory …)
+						// a crash of the process: Go's runtime ends with status 2 on "fatal error: stack overflow"
+						// (unbounded recursive resolution), out of memory, concurrent map writes …
 						total.Violate(map[string]string{"clause": "crash", "job": scenName(job)}, fmt.Sprintf("worker crashed (%v) while running job %s", err, job), map[string]any{"job": job})
 					}
 				}
